@@ -217,7 +217,7 @@ func rewriteFile(path string, src []byte, rel string) ([]byte, bool, error) {
 		}
 		if r.timeName != "" && id.Name == r.timeName {
 			switch se.Sel.Name {
-			case "Now", "Sleep", "Since":
+			case "Now", "Sleep", "Since", "NewTicker":
 				id.Name = "vclock"
 				r.needImp[pVclock] = "vclock"
 				r.changed = true
